@@ -358,10 +358,14 @@ def OBuf.overflow (s : OBuf) (c : Nat) : ORes :=
         else none
   else none
 
+/-- `traits_type::copy(pptr(), src, n); pbump(n)` (or `*pptr() = c; pbump(1)`) -/
+def OBuf.fill (s : OBuf) (bs : Bytes) : OBuf :=
+  { s with buf := poke s.buf s.pptr bs, pptr := s.pptr + bs.length }
+
 /-- libstdc++ `streambuf::sputc(c)`: store into the put area if there is room, else `overflow` -/
 def OBuf.sputc (s : OBuf) (c : Byte) : ORes :=
   if s.pptr < s.epptr then
-    if s.pptr < s.cap then some ({ s with buf := poke s.buf s.pptr [c], pptr := s.pptr + 1 }, []) else none
+    if s.pptr < s.cap then some (s.fill [c], []) else none
   else s.overflow c.toNat
 
 /-- libstdc++ `streambuf::xsputn` (the default, not overridden by `OutBuf`): fill the put area, call
@@ -375,23 +379,20 @@ def OBuf.xsputnGo : Nat → OBuf → Bytes → List Bytes → ORes
     else if s.epptr < s.pptr then none                 -- negative room: traits::copy with a negative count
     else if s.pptr + min (s.epptr - s.pptr) src.length ≤ s.cap then
       match src.drop (min (s.epptr - s.pptr) src.length) with
-      | [] =>
-        some ({ s with buf := poke s.buf s.pptr (src.take (min (s.epptr - s.pptr) src.length)),
-                       pptr := s.pptr + min (s.epptr - s.pptr) src.length }, calls)
+      | [] => some (s.fill (src.take (min (s.epptr - s.pptr) src.length)), calls)
       | c :: rest =>
-        match OBuf.overflow { s with buf := poke s.buf s.pptr (src.take (min (s.epptr - s.pptr) src.length)),
-                                     pptr := s.pptr + min (s.epptr - s.pptr) src.length } c.toNat with
+        match (s.fill (src.take (min (s.epptr - s.pptr) src.length))).overflow c.toNat with
         | none => none
         | some (s2, cs) => OBuf.xsputnGo fuel s2 rest (calls ++ cs)
     else none
 
 def OBuf.xsputn (s : OBuf) (src : Bytes) : ORes := OBuf.xsputnGo (src.length + 1) s src []
 
+/-- `this->setp(&buffer_[0], &buffer_[0] + buffer_.size() - 1)` -/
+def OBuf.setp (s : OBuf) : OBuf := { s with pptr := 0, epptr := Gen.Streams.obPutEnd s.cap }
+
 /-- `OutBuf::set_stream(stream)` on an attached buffer: `pubsync()`, then `setp` again -/
-def OBuf.setStream (s : OBuf) : ORes :=
-  match s.sync with
-  | none => none
-  | some (s1, cs) => some ({ s1 with pptr := 0, epptr := Gen.Streams.obPutEnd s1.cap }, cs)
+def OBuf.setStream (s : OBuf) : ORes := s.sync.map fun r => (r.1.setp, r.2)
 
 /-- operations on a `dmlc::ostream` -/
 inductive OOp
@@ -478,15 +479,18 @@ structure ISt where
 outer `none` = an access outside `buffer_` -/
 abbrev IRes := Option (ISt × Option Byte)
 
+/-- state after `sz = stream_->Read(bhead, buffer_.size()); setg(bhead, bhead, bhead + sz); bytes_read_ += sz` -/
+def ISt.refilled (s : ISt) : ISt :=
+  { ib := { s.ib with buf := poke s.ib.buf 0 (srcRead s.src (Gen.Streams.ibReadSize s.ib.cap)).1,
+                      gptr := 0,
+                      egptr := Gen.Streams.ibNewEnd 0 (srcRead s.src (Gen.Streams.ibReadSize s.ib.cap)).1.length,
+                      count := Gen.Streams.ibCount s.ib.count (srcRead s.src (Gen.Streams.ibReadSize s.ib.cap)).1.length },
+    src := (srcRead s.src (Gen.Streams.ibReadSize s.ib.cap)).2 }
+
 /-- the refill part of `InBuf::underflow()` -/
 def ISt.refill (s : ISt) : Option ISt :=
   if Gen.Streams.ibNeedsRefill s.ib.gptr s.ib.egptr then
-    if Gen.Streams.ibReadSize s.ib.cap ≤ s.ib.cap then                           -- Read(bhead, buffer_.size()) may fill that much
-      some { ib := { s.ib with buf := poke s.ib.buf 0 (srcRead s.src (Gen.Streams.ibReadSize s.ib.cap)).1,
-                               gptr := 0,
-                               egptr := Gen.Streams.ibNewEnd 0 (srcRead s.src (Gen.Streams.ibReadSize s.ib.cap)).1.length,
-                               count := Gen.Streams.ibCount s.ib.count (srcRead s.src (Gen.Streams.ibReadSize s.ib.cap)).1.length },
-             src := (srcRead s.src (Gen.Streams.ibReadSize s.ib.cap)).2 }
+    if Gen.Streams.ibReadSize s.ib.cap ≤ s.ib.cap then some s.refilled     -- Read(bhead, buffer_.size()) may fill that much
     else none
   else some s
 
